@@ -480,6 +480,11 @@ pub fn interrupt_programs(o: &Opts, rep: &mut Report, prop: &str) {
             for k in 0..(if o.thorough() { 84 } else { 42 }) {
                 cases.push((vec![table.clone(), ldir_loop.clone(), short_handler.clone()], l - 400 - k, 50));
             }
+            // nothing but index-register instructions around the frame start (EI; INC IX x4; LD A,(IX+0); JR)
+            let ix_loop = (base, vec![0xFB, 0xDD, 0x23, 0xDD, 0x23, 0xDD, 0x23, 0xDD, 0x23, 0xDD, 0x7E, 0x00, 0x18, 0xF3]);
+            for k in 0..30usize {
+                cases.push((vec![table.clone(), ix_loop.clone(), long_handler.clone()], l - 150 - k, 40));
+            }
             for (pokes, t, steps) in cases {
                 let mut st = St::default();
                 st.w[PC] = base;
